@@ -22,6 +22,7 @@ def run(ctx, db, tier):
     self_owning(ctx, db)
     whole_chain(ctx, db)
     hook_up(ctx, db)
+    listeners_hold_weak(ctx, db)
     summ = publish.Summaries(db)
     publish.check_no_touch(ctx, db, 'C15.publish-discipline', summ, functions=None, per_instance=False, floor=12)
     C02.init_before_publish(ctx, db, summ, 'C15.init-before-publish')
@@ -200,3 +201,28 @@ def hook_up(ctx, db):
     if n == 0 and not bad:
         bad = ('no path calls the registration function', [])
     ctx.ob(rid, f, f['key'], bad is None, 'hooked+registered before the registration function' + ('' if not bad else ' -- ' + bad[0]), desc=bad[0] if bad else None, trace=fmt_trace(bad[1]) if bad and bad[1] else None)
+
+
+def listeners_hold_weak(ctx, db):
+    """the shared state owns the chain of registered listeners; a listener that keeps a strong reference to the state in a member closes an
+    ownership cycle (state -> chain -> listener -> state): dropping the last signal/collector no longer destroys the state, so waiting
+    coroutines are never cancelled and connected callbacks never released"""
+    rid = ctx.rule('C15.listeners-hold-weak', 'TYPE', 'every listener class of signal (emitter, hook_up_emitter, the awaiter created by connect(), anything derived from them) refers to the shared '
+                   'state through weak_ptr only: no data member of type shared_ptr<signal::state> (only signal and collector, the handles, own the state)', floor=2)
+    n = 0; seen = set()
+    for c in db.classes.values():
+        nm = norm(c['name'])
+        if not nm.startswith('cocls::signal::') or nm in ('cocls::signal::state', 'cocls::signal::collector'):
+            continue
+        listener = any('awaiter' in b or 'emitter' in b for b in c.get('bases', []))
+        if not listener:
+            continue
+        k = (nm.split('(')[0] + nm.rsplit(')', 1)[-1], c.get('loc'))
+        if k in seen:
+            continue
+        seen.add(k); n += 1
+        strong = [x['name'] for x in c.get('fields', []) if 'shared_ptr<' in (x.get('canon_type') or x.get('type') or '') and 'state' in (x.get('canon_type') or x.get('type') or '')]
+        ctx.ob(rid, nm, c.get('loc'), not strong, 'listener class %s holds the state weakly' % k[0] + ('' if not strong else ' -- member(s) %s keep it alive' % ', '.join(strong)),
+               desc='signal listener owns the shared state (ownership cycle)')
+    if n == 0:
+        raise Broken('no listener class of signal found')
